@@ -47,7 +47,24 @@ def is_known(known, prop, v):
     return None
 
 
+def prune_cache(hours=8):
+    """the cache is keyed by a hash of every input: directories of trees that have not been used for a while are dropped"""
+    import re
+    import shutil
+    try:
+        now = time.time()
+        for name in os.listdir(WORK):
+            p = os.path.join(WORK, name)
+            if re.fullmatch(r'[0-9a-f]{20}', name) and os.path.isdir(p) and now - os.path.getmtime(p) > hours * 3600:
+                newest = max((os.path.getmtime(os.path.join(p, x)) for x in os.listdir(p)), default=0)
+                if now - newest > hours * 3600:
+                    shutil.rmtree(p, ignore_errors=True)
+    except OSError:
+        pass
+
+
 def main():
+    prune_cache()
     if len(sys.argv) >= 3 and sys.argv[1] == 'replay':
         return suites.replay(sys.argv[2])
     if len(sys.argv) < 2:
